@@ -131,14 +131,17 @@ static inline float vmax_f(float a, float b) { return a < b ? b : a; }
 #define swap(a, b) do { __typeof__(a) swap_t_ = (a); (a) = (b); (b) = swap_t_; } while (0)
 
 /* ------------------------------------------------------------------ libm: exact builtins */
-double fabs(double); float fabsf(float); double floor(double); double ceil(double); float floorf(float);
+double floor(double); double ceil(double); float floorf(float);
 double copysign(double, double); float copysignf(float, float);
-#define fabs(x)       _Generic((x), float: fabsf, default: fabs)(x)
+/* exact |x| without library or builtin calls (those have no body when they occur only in contract clauses) */
+static inline double verif_fabs(double x) { return (x < 0 || (x == 0 && __builtin_signbit(x) != 0)) ? -x : x; }
+static inline float verif_fabsf(float x) { return (x < 0 || (x == 0 && __builtin_signbit(x) != 0)) ? -x : x; }
+#define fabs(x)       _Generic((x), float: verif_fabsf, default: verif_fabs)(x)   /* usable in contract clauses */
 #define copysign(a,b) _Generic((a) + (b), float: copysignf, default: copysign)(a, b)
 #define floor(x)      _Generic((x), float: floorf, default: floor)(x)
 #define signbit(x)    (__builtin_signbit(x) != 0)
 #define isnan(x)      (__builtin_isnan(x) != 0)
-#define isfinite(x)   (__builtin_isfinite(x) != 0)
+#define isfinite(x)   (!isnan(x) && !isinf(x))   /* __builtin_isfinite is not usable under goto-instrument --dfcc */
 #define isinf(x)      (__builtin_isinf(x) != 0)
 
 /* ------------------------------------------------------------------ libm: models (see shim/libm_models.h) */
